@@ -143,7 +143,9 @@ def rational_quadratic_spline(
         c = -input_delta * (inputs - input_cumheights)
 
         discriminant = b.pow(2) - 4 * a * c
-        assert (discriminant >= 0).all()
+        # Rounding can make a vanishing discriminant slightly negative.
+        assert (discriminant >= -1e-4 * b.pow(2)).all()
+        discriminant = torch.clamp(discriminant, min=0)
 
         root = (2 * c) / (-b - torch.sqrt(discriminant))
         # root = (- b + torch.sqrt(discriminant)) / (2 * a)
